@@ -14,6 +14,11 @@ def run(tier, replay):
         cfg = "MC_Base64" if tier == "quick" else "MC_Base64_thorough"
         with open(cases_path, "w") as sink:
             mc = vlib.model_check("MC_Base64", cfg, workers=8, timeout=3000, case_sink=sink, heap="8g")
+        # 1b. the 24-bit group arithmetic of the specification itself, for every group with the first byte in First
+        #     (thorough: all 2^24 groups), incl. the sweep tables the implementation is judged by
+        mcg = vlib.model_check("MC_Base64Groups", "MC_Base64Groups" if tier == "quick" else "MC_Base64Groups_full",
+                               workers=8 if tier == "quick" else 14, timeout=6000, heap="8g")
+        vlib.model_check("MC_Base64Groups", "MC_Base64Groups_mut", expect_violation=True, workers=4, heap="4g")
         # 2. replay on the real library + seeded random inputs and corruptions
         trace = sc.path("trace.ndjson")
         nrand, maxlen, ncorr = (300, 600, 40) if tier == "quick" else (3000, 6000, 400)
@@ -37,7 +42,8 @@ def run(tier, replay):
         with open(trace) as fh:
             head = [next(fh).strip() for _ in range(3)]
         ev["coverage"] = {
-            "states": mc.distinct, "transitions": mc.generated,
+            "states": mc.distinct + mcg.distinct, "transitions": mc.generated + mcg.generated,
+            "spec_groups_checked": mcg.distinct,
             "traces_validated_against_impl": tv.done[0],
             "samples": [__import__("json").loads(h) for h in head],
             "spec_cases_replayed": len(mc.cases),
